@@ -2113,19 +2113,47 @@ class _Desugar(ast.NodeTransformer):
             if len(falling) < 2 or any(not b for b in falling):
                 continue
             envs = []
+            runs = []
             for b in falling:
+                # the bindings the arm ends with: one tuple assignment, or
+                # the run of plain `name = value` statements it ends with
                 last = b[-1]
-                env = {}
-                if isinstance(last, ast.Assign) and len(last.targets) == 1:
-                    t, v = last.targets[0], last.value
-                    if isinstance(t, ast.Name):
-                        env = {t.id: v}
-                    elif isinstance(t, ast.Tuple) and \
-                            isinstance(v, ast.Tuple) and \
-                            len(t.elts) == len(v.elts) and all(
-                                isinstance(e, ast.Name) for e in t.elts):
-                        env = {e.id: x for e, x in zip(t.elts, v.elts)}
+                env, run = {}, []
+                if isinstance(last, ast.Assign) and len(last.targets) == 1 \
+                        and isinstance(last.targets[0], ast.Tuple) and \
+                        isinstance(last.value, ast.Tuple) and \
+                        len(last.targets[0].elts) == len(last.value.elts) \
+                        and all(isinstance(e, ast.Name)
+                                for e in last.targets[0].elts):
+                    env = {e.id: x for e, x in zip(last.targets[0].elts,
+                                                   last.value.elts)}
+                    run = [last]
+                else:
+                    for s2 in reversed(b):
+                        if isinstance(s2, ast.Assign) and \
+                                len(s2.targets) == 1 and \
+                                isinstance(s2.targets[0], ast.Name) and \
+                                s2.targets[0].id not in env:
+                            env[s2.targets[0].id] = s2.value
+                            run.append(s2)
+                        else:
+                            break
                 envs.append(env)
+                runs.append(run)
+            common = set(envs[0]) if envs else set()
+            for e in envs[1:]:
+                common &= set(e)
+            # keep the names REST reads
+            common &= {x.id for r in rest for x in ast.walk(r)
+                       if isinstance(x, ast.Name)}
+            envs = [{k: v for k, v in e.items() if k in common}
+                    for e in envs]
+            # a kept binding must not be read by a later one of its own run
+            if any(isinstance(x, ast.Name) and x.id in common
+                   for run in runs for s2 in run
+                   if not isinstance(s2.targets[0], ast.Tuple)
+                   for x in ast.walk(s2.value)):
+                continue
 
             def stable(v):
                 if isinstance(v, (ast.Tuple, ast.List)):
@@ -2164,10 +2192,14 @@ class _Desugar(ast.NodeTransformer):
                    for b in leaves for s2 in b for x in ast.walk(s2)):
                 continue
             import copy as _c
-            for b, env in zip(falling, envs):
+            for b, env, run in zip(falling, envs, runs):
                 tail = [_SplatFold().visit(_Subst(env, {}).visit(
                     _c.deepcopy(r))) for r in rest]
-                b[-1:] = tail
+                for s2 in run:
+                    if isinstance(s2.targets[0], ast.Tuple) or \
+                            s2.targets[0].id in env:
+                        b.remove(s2)
+                b.extend(tail)
             self.count += 1
             return stmts[:i + 1]
         return stmts
